@@ -211,7 +211,98 @@ fn run_reserved(target: &str, position: &str, name: &str) -> String {
     }
 }
 
+/// declarations of different kinds that want one name in one scope (the root or a namespace): an enum value, a global,
+/// a function, a struct, a typedef, a namespace, a constant buffer and its member, an enum
+pub fn same_name_program(seed: u64) -> String {
+    let mut rng = Rng::new(seed ^ 0x5a3e);
+    const POOL: &[&str] = &["a", "b", "Slow"];
+    let in_ns = rng.chance(1, 3);
+    let mut s = String::new();
+    if in_ns { s += "namespace NS {\n"; }
+    let n = rng.range(2, 4);
+    for k in 0..n {
+        let name = *rng.pick(POOL);
+        match rng.below(9) {
+            0 => s += &format!("enum En{} {{ {} = {} }};\n", k, name, k + 1),
+            1 => s += &format!("static const int {} = {};\n", name, k + 10),
+            2 => s += &format!("int {}() {{ return {}; }}\n", name, k + 20),
+            3 => s += &format!("struct {} {{ int m{}; }};\n", name, k),
+            4 => s += &format!("typedef int {};\n", name),
+            5 => s += &format!("namespace {} {{ static const int z{} = 1; }}\n", name, k),
+            6 if !in_ns => s += &format!("cbuffer Cb{} {{ int {}; }}\n", k, name),
+            7 if !in_ns => s += &format!("cbuffer {} {{ int cm{}; }}\n", name, k),
+            _ => s += &format!("enum {} {{ Vv{} }};\n", name, k),
+        }
+    }
+    if in_ns { s += "}\n"; }
+    s
+}
+
+fn decl_name(d: &rssl::ast::Declarator) -> Option<String> {
+    match d {
+        rssl::ast::Declarator::Empty => None,
+        rssl::ast::Declarator::Identifier(id, _) => id.identifiers.last().map(|x| x.node.clone()),
+        rssl::ast::Declarator::Pointer(p) => decl_name(&p.inner),
+        rssl::ast::Declarator::Reference(p) => decl_name(&p.inner),
+        rssl::ast::Declarator::Array(p) => decl_name(&p.inner),
+    }
+}
+
+/// the names one scope of the emitted module declares, with the kind of entity; namespaces are scopes of their own
+fn declared(defs: &[rssl::ast::RootDefinition], scope: &str, out: &mut Vec<(String, String, &'static str)>) {
+    use rssl::ast::RootDefinition as R;
+    for d in defs {
+        match d {
+            R::Struct(sd) => out.push((scope.to_string(), sd.name.node.clone(), "struct")),
+            R::Enum(ed) => {
+                out.push((scope.to_string(), ed.name.node.clone(), "enum"));
+                for v in &ed.values { out.push((scope.to_string(), v.name.node.clone(), "enum value")); }
+            }
+            R::Typedef(td) => { if let Some(n) = decl_name(&td.declarator) { out.push((scope.to_string(), n, "typedef")); } }
+            R::ConstantBuffer(cb) => {
+                out.push((scope.to_string(), cb.name.node.clone(), "constant buffer"));
+                for m in &cb.members { for dd in &m.defs { if let Some(n) = decl_name(&dd.declarator) { out.push((scope.to_string(), n, "constant buffer member")); } } }
+            }
+            R::GlobalVariable(gv) => { for dd in &gv.defs { if let Some(n) = decl_name(&dd.declarator) { out.push((scope.to_string(), n, "global")); } } }
+            R::Function(fd) => out.push((scope.to_string(), fd.name.node.clone(), "function")),
+            R::Namespace(name, inner) => {
+                out.push((scope.to_string(), name.node.clone(), "namespace"));
+                declared(inner, &format!("{}::{}", scope, name.node), out);
+            }
+            R::Pipeline(_) => {}
+        }
+    }
+}
+
+/// N <seed>: the emitted HLSL module never declares two entities of one name in one scope (overloads of a function and
+/// the parts of a reopened namespace aside)
+fn run_same_name(seed: u64) -> String {
+    let src = same_name_program(seed);
+    match catch(|| front_end(&src)) {
+        Ok(Ok(_)) => {}
+        Ok(Err(e)) => return format!("REJECT:{}", e),
+        Err(e) => return format!("PANIC {}", e.lines().next().unwrap_or("")),
+    }
+    let _ = rssl::hlsl::verif::take_last_ast();
+    let o = crate::probe::compile_src(&[("main.rssl", &src)], "main.rssl", "HlslForDirectX", true, false, None, &[]);
+    if o.kind != "OK" { return format!("EXPORT-{} {}", o.kind, o.text.lines().next().unwrap_or("")); }
+    let tree = match rssl::hlsl::verif::take_last_ast() { Some(t) => t, None => return "SKIP no tree".into() };
+    let mut ds = Vec::new();
+    declared(&tree.root_definitions, "", &mut ds);
+    for (i, a) in ds.iter().enumerate() {
+        for b in &ds[..i] {
+            if a.0 == b.0 && a.1 == b.1 && !(a.2 == "function" && b.2 == "function") && !(a.2 == "namespace" && b.2 == "namespace") {
+                return format!("DUP-NAME `{}` is declared as {} and as {} in scope `{}::`", a.1, b.2, a.2, a.0);
+            }
+        }
+    }
+    format!("DECLS {}", ds.len())
+}
+
 pub fn run_line(line: &str) -> String {
+    if let Some(rest) = line.strip_prefix("N ") {
+        return match rest.trim().parse::<u64>() { Ok(seed) => run_same_name(seed), Err(_) => "BAD-CASE".into() };
+    }
     if let Some(rest) = line.strip_prefix("R ") {
         let w: Vec<&str> = rest.split_whitespace().collect();
         if w.len() != 3 {
@@ -448,5 +539,6 @@ pub fn gen_cases(seed: u64, n: usize, _thorough: bool) -> Vec<String> {
         push(rng.chance(1, 2), src, &mut out);
     }
     for _ in 0..n / 10 { out.push(format!("U {}", rng.below(1 << 40))); }
+    for _ in 0..n / 2 { out.push(format!("N {}", rng.below(1 << 40))); }
     out
 }
